@@ -21,7 +21,7 @@ PROPS = {
     'C15': {'units': ['shape'], 'kani': []},
     'C13': {'units': ['sym'], 'kani': []},
     'C09': {'units': ['prep'], 'kani': []},
-    'C08': {'units': ['mmcs'], 'kani': []},
+    'C08': {'units': ['mmcs', 'hash'], 'kani': []},
     'C16': {'units': ['meta'], 'kani': []},
     'C11': {'units': ['air', 'alu', 'run19'], 'kani': [], 'only': {'run19': r'execute_alu_op'}},
 }
@@ -145,12 +145,15 @@ META['C07'] = {
 }
 
 META['C08'] = {
-    'technique': 'Verus contracts on the extracted real cap-selection gadget',
+    'technique': 'Verus contracts on the extracted real cap-selection gadget and extension-leaf hasher against a transcribed native overwrite-mode sponge',
     'text': 'Deductive proof, for every cap height, digest width and boolean index-bit assignment, that select_cap_entry returns componentwise the cap entry at the little-endian index of the '
-            'remaining index bits (invariant over the halving layers: layer k entry m is cap[m*2^k + low-k-bits index]), with every index in bounds.',
-    'note': 'KERNEL ONLY (cap selection). Not under contract: leaf hashing (add_hash_*), path compression rows and direction bits, arity-4 schedules (arity4_leaf_rows / arity4_path_schedule are '
-            'itertools-heavy), the MMCS executor, and the iff with the native Merkle verifier; hash semantics are opaque to contracts. Preconditions: |cap| = 2^|bits|, equal row widths (the '
-            'debug_assert in the code), boolean bits.',
+            'remaining index bits (invariant over the halving layers: layer k entry m is cap[m*2^k + low-k-bits index]), with every index in bounds; and, for every number of extension elements, '
+            'rate and width, that add_hash_extension_elements returns targets whose values are the native PaddingFreeSponge digest of the row (invariant over the chunks: the table row state equals '
+            'the native sponge state after i chunks; the permutation row reads exactly the native absorbed state: chunk values, previous rate outputs on a partial non-first chunk, chained capacity).',
+    'note': 'Not under contract: add_hash_base_coeffs_overwrite (base-coefficient route; assumed callee of the D=1-in-extension branch), path compression rows and direction bits, arity-4 schedules '
+            '(itertools-heavy), the MMCS executor, and the iff with the native Merkle verifier. Assumed: one permutation row = permute(bus-read limbs, zero on chain start / previous row output for omitted '
+            'limbs) (executor semantics; C06 examines enforcement); native sponge transcribed; reset = true as at all call sites; single-chunk merkle_seed rows unspecified. select_cap_entry '
+            'preconditions: |cap| = 2^|bits|, equal row widths (the debug_assert in the code), boolean bits.',
 }
 
 META['C09'] = {
